@@ -116,10 +116,28 @@ let judge _id (c : cursor) (r : cursor) : bool * string =
           let clause = if q_lt ev vi then "solver_value_le_EV" else "solver_value_ge_EV" in
           oracle_fail clause site (Printf.sprintf "belief %s: EV=%s impl=%s" (str_qs b) (string_of_q ev) (string_of_q vi))
         end) bs;
+    (* O / C02, at EVERY belief (theorem solver_surface_certified): each vector of the model's exact list is certified
+       to be nowhere more than weps above the returned list; the weights are searched in floating point (untrusted)
+       and checked by the extracted none_cert_ok.  A failed search with an exact separating belief is a violation. *)
+    let mvf_all = ip_run prune_pw m (nat_of_int h) in
+    let gamma = List.nth mvf_all h in
+    let grows = List.map (fun (e : ventry) -> e.vals) last in
+    let uncert = ref 0 in
+    List.iter (fun (g : ventry) ->
+        let (y, x) = game_solve grows g.vals in
+        match normalise y with
+        | Some lam when none_cert_ok m.pm.nS weps grows g.vals lam -> ()
+        | _ ->
+          (match normalise x with
+           | Some b when List.for_all (fun rw -> q_lt (q_add (qdot rw b) weps) (qdot g.vals b)) grows ->
+             oracle_fail "solver_value_ge_EV" site
+               (Printf.sprintf "belief %s (found by the certificate search): EV=%s impl=%s" (str_qs b)
+                  (string_of_q (eV_r m (nat_of_int h) b)) (string_of_q (vbest last b)))
+           | _ -> incr uncert)) gamma;
     (* C: the model (pointwise pruning instance) gives the same surface; its schedule is ok *)
     if not (ops_ok m.nO) then disagree "ops_ok" "IncrementalPruning::operator()" "merge schedule does not cover the observations in order";
     if alg = "ip" then begin
-      let mvf = ip_run prune_pw m (nat_of_int h) in
+      let mvf = mvf_all in
       let mlast = List.nth mvf h in
       List.iter (fun b ->
           if not (q_eq (vbest mlast b) (eV_r m (nat_of_int h) b)) then disagree "model_value_is_EV" "ip_run" "model surface differs from EV (model bug)";
@@ -227,7 +245,7 @@ let judge _id (c : cursor) (r : cursor) : bool * string =
         done
       end
     end;
-    (h >= 2 && int_of_nat m.nO >= 2, !wtag)
+    (h >= 2 && int_of_nat m.nO >= 2, !wtag ^ (if !uncert > 0 then "+uncertified" else ""))
   | "rtbss" ->
     let _repr = next c in let h = next_int c in let maxR = next_q c in
     let m = read_pomdp c in
